@@ -227,6 +227,7 @@ def run_scenario(sc, base, fast=True, mode='each', real_passes=None, on_test=Non
                 for p in passes:
                     w0, f0, e0 = stat_of(p)
                     a0 = len(o.accepted)
+                    t0_ = len(testlog)
                     code = 0
                     exc = None
                     try:
@@ -242,6 +243,7 @@ def run_scenario(sc, base, fast=True, mode='each', real_passes=None, on_test=Non
                     leaked = sorted(os.listdir(tmpd))
                     o.passes.append(dict(pass_=repr(p), code=code, exc=exc, worked=w1 - w0, failed=f1 - f0,
                                          executed=e1 - e0, bug=b, extra=x, disk=d, acc=o.accepted[a0:], acc_before=o.accepted_before[a0:], leaked=leaked,
+                                         test_codes=[rc_ for (_c, rc_, _w, _l) in testlog[t0_:]],
                                          futures=len(getattr(tm, 'futures', []) or []),
                                          folders=len(getattr(tm, 'temporary_folders', {}) or {})))
                     out += [code, w1 - w0, f1 - f0, e1 - e0, b, x] + enc_disk(d) + [len(o.accepted[a0:])]
